@@ -7,7 +7,7 @@ Every definition mirrors the Python code AS IT IS; the anchors are
   ffcx/ir/representation.py      _compute_integral_ir   (coefficient_offsets, original_constant_offsets)
                                  _compute_expression_ir (coefficient_offsets, original_coefficient_positions,
                                                          entity_type from (tdim, pdim), constant offsets)
-                                 _compute_form_ir       (subdomain id tuples, 'otherwise' ↦ -1, `< -1` rejection)
+                                 _compute_form_ir       (subdomain id tuples, 'otherwise' ↦ -1, rejection of negative user ids)
   ffcx/codegeneration/common.py  integral_data, tensor_sizes
   ffcx/codegeneration/C/form.py  form_integrals / form_integral_ids / form_integral_offsets initialisers
   ffcx/codegeneration/C/expression.py   ufcx_expression fields
@@ -137,20 +137,18 @@ def sortGroup (π : List Nat) (g : Group) : Group := applyPerm π g
 /-- Number of kernel pointers `C/form.py` emits for a group: one per (entry, domain). -/
 def kernelCount (g : Group) : Nat := (g.map (·.domains.length)).sum
 
-/-- The loop of `integral_data` after sorting, mirroring
-`offsets.append(offsets[-1] + sum(len(d) for d in domains[offsets[-1]:]))`:
-`acc` is the accumulated (ids, names, domains) list over the types processed so far INCLUDING
-the current one, `last` is `offsets[-1]` — a *kernel count* that the code uses as an index
-into the *entry* list `domains`. -/
-def offsLoop (acc : List Entry) (last : Nat) : List Group → List Nat
+/-- The offsets loop of `integral_data`, mirroring
+`offsets.append(offsets[-1] + sum(len(ir.integral_domains[itg_type][i]) for i in id_sort))`:
+`last` is `offsets[-1]`; the summand runs over the (argsorted) entries of THIS type, one kernel per
+(integral, domain) pair. -/
+def offsLoop (last : Nat) : List Group → List Nat
   | [] => []
   | g :: gs =>
-    let acc' := acc ++ g
-    let next := last + ((acc'.drop last).map (·.domains.length)).sum
-    next :: offsLoop acc' next gs
+    let next := last + kernelCount g
+    next :: offsLoop next gs
 
-/-- `integral_data(ir).offsets` for already sorted groups. -/
-def offsets (sorted : List Group) : List Nat := 0 :: offsLoop [] 0 sorted
+/-- `integral_data(ir).offsets` for the argsorted groups. -/
+def offsets (sorted : List Group) : List Nat := 0 :: offsLoop 0 sorted
 
 structure IntData where
   names : List String
@@ -223,14 +221,19 @@ def modifyAt {α} (f : α → α) : Nat → List α → List α
   | 0, a :: l => f a :: l
   | n + 1, a :: l => a :: modifyAt f n l
 
-/-- One iteration of the `for itg_index, itg_data in enumerate(form_data.integral_data)` loop. -/
+/-- `sid != "otherwise" and sid < 0` -/
+def SubId.isNegative : SubId → Bool
+  | .otherwise => false
+  | .num i => decide (i < 0)
+
+/-- One iteration of the `for itg_index, itg_data in enumerate(form_data.integral_data)` loop:
+`if any(sid != "otherwise" and sid < 0 for sid in itg_data.subdomain_id): raise ValueError(...)`
+BEFORE 'otherwise' is mapped to -1; then the three dict-of-lists are extended (KeyError for an
+integral type that is not a key). -/
 def formIRStep (groups : List Group) (d : ItgData) : Except String (List Group) :=
-  match (d.subIds.map SubId.toInt).min? with
-  | none => .error "min() arg is an empty sequence"
-  | some m =>
-    if m < -1 then .error "Integral subdomain IDs must be non-negative."
-    else if d.itype < groups.length then .ok (modifyAt (· ++ d.entries) d.itype groups)
-    else .error "KeyError: integral type"
+  if d.subIds.any SubId.isNegative then .error "Integral subdomain IDs must be non-negative."
+  else if d.itype < groups.length then .ok (modifyAt (· ++ d.entries) d.itype groups)
+  else .error "KeyError: integral type"
 
 def formIRLoop (groups : List Group) : List ItgData → Except String (List Group)
   | [] => .ok groups
@@ -269,7 +272,7 @@ structure ExprIn where
   origCoeffs : List Nat       -- extract_coefficients(original_expr), as identifying numbers
   coeffs : List Nat           -- extract_coefficients(expr) (after preprocessing)
   origConstShapes : List (List Nat)   -- shapes of extract_constants(original_expr)
-  numConstsReduced : Nat      -- len(extract_constants(expr)) (after preprocessing)
+  numConstsReduced : Nat      -- len(extract_constants(expr)) after preprocessing (no longer read by the code)
   deriving Repr
 
 structure ExprDesc where
@@ -285,7 +288,9 @@ structure ExprDesc where
   sizeA : Nat
   deriving Repr, DecidableEq
 
-/-- Descriptor fields of `ufcx_expression` (plus `entity_type` and `tensor_sizes(ir).A`). -/
+/-- Descriptor fields of `ufcx_expression` (plus `entity_type` and `tensor_sizes(ir).A`).
+`num_constants = len(ir.constant_names)`, and `constant_names` enumerates
+`extract_constants(original_expr)` — the same list `original_constant_offsets` is built from. -/
 def exprDesc (e : ExprIn) : Except String ExprDesc :=
   if e.argDims.length > 1 then .error "Expression with more than one Argument not implemented."
   else match entityType e.tdim e.pdim with
@@ -293,7 +298,7 @@ def exprDesc (e : ExprIn) : Except String ExprDesc :=
     | .ok et => .ok
       { numPoints := e.numPoints, entityDimension := e.pdim, valueShape := e.shape,
         numComponents := e.shape.length, rank := e.argDims.length,
-        numCoefficients := e.coeffs.length, numConstants := e.numConstsReduced,
+        numCoefficients := e.coeffs.length, numConstants := e.origConstShapes.length,
         origPositions := origPositions e.origCoeffs e.coeffs, entityType := et,
         sizeA := e.numPoints * shapeProd e.shape * shapeProd e.argDims }
 
